@@ -85,6 +85,15 @@ def ops_for(K):
     return o
 
 
+def with_alt(spec_fmt, kind):
+    """scalar operands may be taken by value or by const reference: accept either spelling"""
+    if kind in ("cvs", "bvs", "fvs", "bsv", "eqabs", "eqrel") and "{T})" in spec_fmt or "({T}," in spec_fmt:
+        alt = spec_fmt.replace("({T})", "(const {T} &)").replace(", {T})", ", const {T} &)").replace("({T},", "(const {T} &,")
+        if alt != spec_fmt:
+            return spec_fmt + " || " + alt
+    return spec_fmt
+
+
 def driver_for(pairs):
     hdrs = sorted({HDR[K] for K, T in pairs})
     t = "".join('#include "%s"\n' % h for h in hdrs)
@@ -206,9 +215,10 @@ def gen_unit_file(K, T, ex, specs, tier):
                     sn = rest[1]
             elif scal:
                 sn = rest[0]
+        sref = bool(sn) and ("ref" in [k for k, n2 in zip(ex.pkinds.get(f, []), pnames) if n2 == sn])
         oldA = "__CPROVER_old (%s)" % A
         oldB = "__CPROVER_old (*%s)" % Bn if Bn else "(%s){0}" % S
-        sv = sn if sn else "0"
+        sv = (("__CPROVER_old (*%s)" % sn) if sref else sn) if sn else "0"
         Rexpr = "(*this_)" if inplace else "__CPROVER_return_value"
         c = [proto]
         ptrs = []
@@ -220,6 +230,8 @@ def gen_unit_file(K, T, ex, specs, tier):
             ptrs.append((A[1:], False))
         if kind in ("fvv", "feq", "fne"):
             ptrs = [(rest[0], False), (rest[1], False)]
+        if sref:
+            ptrs.append((sn, False))
         for pn, w in ptrs:
             c.append("    __CPROVER_requires (%s (%s, sizeof (*%s)))" % ("__CPROVER_rw_ok" if w else "__CPROVER_r_ok", pn, pn))
         c.append("    __CPROVER_requires (REQ_%s (%s, %s, %s))" % (tag, A, ("*" + Bn) if Bn else "(%s){0}" % S, sv))
@@ -251,6 +263,11 @@ def gen_unit_file(K, T, ex, specs, tier):
             h.append("    VF_IN (%s, in_s);" % ct)
         else:
             h.append("    %s in_s = 0;" % ct)
+        if sref:
+            # scalar operand taken by reference: it may designate an element of the object itself
+            h.append("    %s *ps = &in_s;" % ct)
+            for k, sl in enumerate(slots):
+                h.append("#if VF_SALIAS == %d\n    ps = &a.%s; in_s = *ps;\n#endif" % (k, sl))
         h.append("    %s a0 = a, b0 = *pb; (void) a0; (void) b0;" % S)
         h.append("#ifdef VF_NATIVE")
         h.append("    VF_ASSUME (REQ_%s (a0, b0, in_s));" % tag)
@@ -263,7 +280,7 @@ def gen_unit_file(K, T, ex, specs, tier):
             elif pn == Bn:
                 args.append("pb")
             elif pn == sn:
-                args.append("in_s")
+                args.append("ps" if sref else "in_s")
             else:
                 args.append("&a")
         call = "%s (%s)" % (f, ", ".join(args))
@@ -288,7 +305,7 @@ def gen_unit_file(K, T, ex, specs, tier):
         replace = []
         if kind == "eqabs":
             replace = []
-        units.append(dict(tag=tag, f=f, spec=spec, kind=kind, two=two))
+        units.append(dict(tag=tag, f=f, spec=spec, kind=kind, two=two, sref=sref, nslots=len(slots)))
     return "\n".join(lines), units
 
 
@@ -345,7 +362,7 @@ def units(tier):
         wanted = []
         for K, T in fp:
             for spec_fmt, kind, op in ops_for(K):
-                wanted.append(spec_fmt.replace("{T}", T))
+                wanted.append(with_alt(spec_fmt, kind).replace("{T}", T))
         for T in sorted({T for K, T in fp if any(k in ("eqabs", "eqrel") for _, k, _ in ops_for(K))}):
             wanted.append("equalWithAbsError<%s>(%s, %s, %s)" % (T, T, T, T))
             wanted.append("equalWithRelError<%s>(%s, %s, %s)" % (T, T, T, T))
@@ -360,10 +377,13 @@ def units(tier):
                 open(path, "w").write(txt)
             for d in ulist:
                 fp_mode = T in FP
-                for alias in ((0, 1) if d["two"] else (0,)):
-                    us.append(Unit("c04." + d["tag"] + (".alias" if alias else ""), path, "h_" + d["tag"], enforce=[d["f"]],
+                variants = [(a, -1) for a in ((0, 1) if d["two"] else (0,))]
+                if d["sref"]:
+                    variants += [(0, k) for k in sorted({0, d["nslots"] // 2, d["nslots"] - 1})]
+                for alias, sal in variants:
+                    us.append(Unit("c04." + d["tag"] + (".alias" if alias else "") + (".salias%d" % sal if sal >= 0 else ""), path, "h_" + d["tag"], enforce=[d["f"]],
                                    backend="cvc5", mode="IEEE" if fp_mode else "BIT",
-                                   includes=[GEN], functions=[d["spec"]], defines=["VF_ALIAS=%d" % alias],
+                                   includes=[GEN], functions=[d["spec"]], defines=["VF_ALIAS=%d" % alias, "VF_SALIAS=%d" % sal],
                                    clause="%s: every slot equals the scalar operation on corresponding slots; frame%s" % (d["spec"], " (operands aliased)" if alias else ""),
                                    cbmc_flags=["--unwind", "8", "--unwinding-assertions"],
                                    no_checks=True, timeout=300,
